@@ -47,6 +47,7 @@ def check_ctor(ctx, fx, config, f, mark_hint):
 def run(ctx):
     for config in ctx.configs:
         fx = ctx.facts(config)
+        rule_use_site_sources(ctx, fx, config)
         a = fx.fn("location::location_from_span")
         b_ = fx.fn("de_error::Error::from_scan_error")
         ra = check_ctor(ctx, fx, config, a, "span.start")
@@ -190,3 +191,30 @@ def run(ctx):
             ctx.check(any(fx.callee(t) == "de_error::maybe_attach_fallback_location" for b, t in f.calls()), "TABLE", "C16:TABLE:serde-hook:%s" % h, "serde's %s error gets the fallback location" % h, "de::Error::%s no longer attaches the fallback location" % h, config, ctx.where(f))
         mf = fx.fn("de_error::maybe_attach_fallback_location")
         ctx.check(any(fx.callee(t) == "de_error::Error::with_location" for b, t in mf.calls()), "TABLE", "C16:TABLE:fallback-attaches", "the fallback location is attached with with_location", "maybe_attach_fallback_location no longer attaches a location", config, ctx.where(mf))
+
+
+def rule_use_site_sources(ctx, fx, config, prop="C16"):
+    """USE-SITE: the two event sources answer `reference_location` for *every* node of a replayed subtree with the use site
+    (alias / merge entry): the replay buffer's override is consulted unconditionally, the live source's innermost replay
+    frame likewise.  (Shared with C18: validation error paths are located through the same answer.)"""
+    for name, field, what in (("<de::ReplayEvents as de::Events>::reference_location", "self.ref_override", "replayed (merge-derived / buffered) nodes"),
+                              ("<live_events::LiveEvents as de::Events>::reference_location", "self.inject", "alias-replayed nodes")):
+        f = fx.fn(name)
+        ctx.saw(f)
+        sw = None
+        for b in sorted(f.live_blocks):
+            t = f.blocks[b]["term"]
+            if t["k"] == "switch":
+                with f.deep():
+                    sym = f.sym_operand(t["o"])
+                r = render(sym)
+                if sym[0] == "discr" and field in r:
+                    sw = b
+                    break
+        key = "%s:USE-SITE:%s" % (prop, name.split(" as ")[0].strip("<").split("::")[-1])
+        if not ctx.check(sw is not None, "USE-SITE", key + ":test", "the use-site override (%s) is consulted" % field, "%s no longer consults %s" % (name, field), config, ctx.where(f)):
+            continue
+        # nothing decides before it: every path from the entry reaches the test without passing another conditional
+        pre = [b for b in f.reachable([0], avoid=[sw]) if f.blocks[b]["term"]["k"] == "switch" and b != sw]
+        ctx.check(not pre, "USE-SITE", key + ":unconditional", "the override is consulted before any other condition (it holds for the whole replay, not only its first event)",
+                  "%s tests another condition before consulting %s: for %s deeper than the first event the definition site is reported as the use site (`referenced == defined`)" % (name, field, what), config, ctx.where(f, pre[0] if pre else None))
